@@ -15,6 +15,18 @@
 //! Part C : op sequences in a named collection (store / store-with-metadata / delete / delete_collection /
 //!          cache an index built by the harness), per collection metric.
 //! Part H : HNSWIndex directly: every insert sequence over the grid, search / search_with_ef.
+//!
+//! Configuration dimension (`Cfg`): every field of `VectorEngineConfig` that switches a code path gets an engine
+//! built with a value that makes the switch fire on tiny stores (parallel_threshold=2, max_keys_per_scan=2/1,
+//! max_dimension=2, sparse_threshold=0/1, batch_parallel_threshold=2, search_timeout=1h, all at once). Parts
+//! R / S / F / M / N / P run again (or only) on those engines.
+//! Part M : metadata mutators (update_metadata / remove_metadata_field) between filtered searches.
+//! Part N : entity embeddings (set_entity_embedding / remove_entity_embedding / search_entities[_paginated]).
+//! Part P : persistence as a store path (save_index[_binary] / load_index[_binary]) in both worlds.
+//! Part X : indexes held by the caller (build_hnsw_index* + search_with_hnsw[_and_metric], build_ivf_index* +
+//!          search_with_ivf[_nprobe]) over every multiset of grid vectors.
+//! After every step of every sequence part the listing functions (list_keys*, count, exists, list_keys_paginated,
+//! list_keys_matching, count_matching, list_collection_keys, collection_count, …) are compared with the reference.
 use nvc::Report;
 use rayon::prelude::*;
 use serde_json::{json, Value};
@@ -25,7 +37,10 @@ use std::panic::{catch_unwind, AssertUnwindSafe};
 use std::sync::atomic::{AtomicU8, Ordering as AO};
 use std::sync::Arc;
 use tensor_store::{HNSWConfig, HNSWDistanceMetric, HNSWIndex, ScalarValue, SparseVector, TensorValue};
-use vector_engine::{DistanceMetric, EmbeddingInput, FilterCondition, FilterValue, FilteredSearchConfig, SearchResult, VectorCollectionConfig, VectorEngine};
+use vector_engine::{
+    DistanceMetric, EmbeddingInput, ExtendedDistanceMetric, FilterCondition, FilterValue, FilteredSearchConfig, HNSWBuildOptions, HNSWStorageStrategy, IVFBuildOptions, Pagination, SearchResult, VectorCollectionConfig, VectorEngine,
+    VectorEngineConfig,
+};
 
 thread_local! { static QUIET: Cell<bool> = const { Cell::new(false) }; }
 /// 0 = normal; 1 = oracle computes euclidean score as 1/(1+d²); 2 = oracle forgets deletes (model keeps deleted keys)
@@ -127,28 +142,111 @@ fn nonzero(v: Vec<Vec<f32>>) -> Vec<Vec<f32>> {
     v.into_iter().filter(|x| x.iter().any(|c| *c != 0.0)).collect()
 }
 
+// ------------------------------------------------------------------ engine configurations
+/// One value per `VectorEngineConfig` field that switches a code path (fields that no code reads — `default_metric`,
+/// `default_dimension` — and the two load limits `max_index_file_bytes` / `max_index_entries`, which only reject, have none).
+#[derive(Clone, Copy, PartialEq, Eq, Debug, Hash, PartialOrd, Ord)]
+enum Cfg {
+    /// `VectorEngine::new()`
+    Default,
+    /// parallel_threshold = 2: `search_parallel` / `search_parallel_with_metric` from two stored embeddings on
+    Par2,
+    /// max_keys_per_scan = 2: bounded list_keys / clear / index build / pre-filter
+    Scan2,
+    /// max_keys_per_scan = 1
+    Scan1,
+    /// max_dimension = 2: stores of 3-d vectors are rejected, 3-d queries answer DimensionMismatch
+    MaxDim2,
+    /// sparse_threshold = 0.0: every vector takes the sparse representation
+    SparseAll,
+    /// sparse_threshold = 1.0: only all-zero vectors take the sparse representation
+    SparseNone,
+    /// batch_parallel_threshold = 2: batch_store_embeddings stores through rayon
+    BatchPar2,
+    /// search_timeout = 1 h: every deadline branch runs, none fires
+    Timeout,
+    /// everything above at once (scan bound 2, sparse everything)
+    Combo,
+}
+const NCFG: usize = 10;
+impl Cfg {
+    const ALL: [Cfg; NCFG] = [Cfg::Default, Cfg::Par2, Cfg::Scan2, Cfg::Scan1, Cfg::MaxDim2, Cfg::SparseAll, Cfg::SparseNone, Cfg::BatchPar2, Cfg::Timeout, Cfg::Combo];
+    fn name(self) -> &'static str {
+        match self {
+            Cfg::Default => "default",
+            Cfg::Par2 => "par2",
+            Cfg::Scan2 => "scan2",
+            Cfg::Scan1 => "scan1",
+            Cfg::MaxDim2 => "maxdim2",
+            Cfg::SparseAll => "sparse-all",
+            Cfg::SparseNone => "sparse-none",
+            Cfg::BatchPar2 => "batchpar2",
+            Cfg::Timeout => "timeout1h",
+            Cfg::Combo => "combo",
+        }
+    }
+    fn parse(s: &str) -> Option<Cfg> {
+        Cfg::ALL.into_iter().find(|c| c.name() == s)
+    }
+    fn config(self) -> VectorEngineConfig {
+        let d = VectorEngineConfig::default();
+        let hour = std::time::Duration::from_secs(3600);
+        match self {
+            Cfg::Default => d,
+            Cfg::Par2 => d.with_parallel_threshold(2),
+            Cfg::Scan2 => d.with_max_keys_per_scan(2),
+            Cfg::Scan1 => d.with_max_keys_per_scan(1),
+            Cfg::MaxDim2 => d.with_max_dimension(2),
+            Cfg::SparseAll => d.with_sparse_threshold(0.0),
+            Cfg::SparseNone => d.with_sparse_threshold(1.0),
+            Cfg::BatchPar2 => d.with_batch_parallel_threshold(2),
+            Cfg::Timeout => d.with_search_timeout(hour),
+            Cfg::Combo => d.with_parallel_threshold(2).with_max_keys_per_scan(2).with_sparse_threshold(0.0).with_batch_parallel_threshold(2).with_search_timeout(hour),
+        }
+    }
+    fn engine(self) -> VectorEngine {
+        if self == Cfg::Default {
+            VectorEngine::new()
+        } else {
+            VectorEngine::with_config(self.config()).expect("valid engine configuration")
+        }
+    }
+    fn scan_bound(self) -> Option<usize> {
+        self.config().max_keys_per_scan
+    }
+    fn max_dim(self) -> Option<usize> {
+        self.config().max_dimension
+    }
+}
+
 // ------------------------------------------------------------------ worlds, ops, model
 #[derive(Clone, Copy, PartialEq, Eq, Debug, Hash)]
 enum World {
     Default,
     Named(M),
+    /// embeddings kept in the `_embedding` field of entities (`set_entity_embedding` / `search_entities`)
+    Entity,
 }
 impl World {
     fn name(self) -> String {
         match self {
             World::Default => "default".into(),
             World::Named(m) => format!("named:{}", m.name()),
+            World::Entity => "entity".into(),
         }
     }
     fn short(self) -> &'static str {
         match self {
             World::Default => "default",
             World::Named(_) => "collection",
+            World::Entity => "entity",
         }
     }
     fn parse(s: &str) -> Option<World> {
         if s == "default" {
             Some(World::Default)
+        } else if s == "entity" {
+            Some(World::Entity)
         } else {
             s.strip_prefix("named:").and_then(M::parse).map(World::Named)
         }
@@ -164,6 +262,16 @@ enum Op {
     BatchDelete(Vec<&'static str>),
     Clear,
     Build,
+    /// update_metadata(key, {t: tag})
+    SetTag(&'static str, &'static str),
+    /// remove_metadata_field(key, "t")
+    DropTag(&'static str),
+    /// entity world only: store_embedding("a", [1,1]) — default-collection data an entity search must not see
+    Noise,
+    /// save_index + save_index_binary of the world's collection to scratch files
+    Save,
+    /// load_index (false) / load_index_binary (true) of the files written by the last Save of this history
+    Load(bool),
 }
 fn skey(s: &str) -> Option<&'static str> {
     KEYS.iter().copied().find(|k| *k == s)
@@ -178,18 +286,26 @@ impl Op {
     /// name of the repository function this op calls
     fn kind(&self, w: World) -> &'static str {
         match (self, w) {
+            (Op::BatchStore(..), _) => "batch_store_embeddings",
+            (Op::BatchDelete(..), _) => "batch_delete_embeddings",
+            (Op::SetTag(..), _) => "update_metadata",
+            (Op::DropTag(..), _) => "remove_metadata_field",
+            (Op::Noise, _) => "store_embedding",
+            (Op::Save, _) => "save_index",
+            (Op::Load(false), _) => "load_index",
+            (Op::Load(true), _) => "load_index_binary",
             (Op::Store(..), World::Default) => "store_embedding",
             (Op::StoreMeta(..), World::Default) => "store_embedding_with_metadata",
             (Op::Delete(..), World::Default) => "delete_embedding",
-            (Op::BatchStore(..), _) => "batch_store_embeddings",
-            (Op::BatchDelete(..), _) => "batch_delete_embeddings",
-            (Op::Clear, World::Default) => "clear",
-            (Op::Build, World::Default) => "build_and_cache_index",
+            (Op::Clear, World::Default | World::Entity) => "clear",
+            (Op::Build, World::Default | World::Entity) => "build_and_cache_index",
             (Op::Store(..), World::Named(_)) => "store_in_collection",
             (Op::StoreMeta(..), World::Named(_)) => "store_in_collection_with_metadata",
             (Op::Delete(..), World::Named(_)) => "delete_from_collection",
             (Op::Clear, World::Named(_)) => "delete_collection",
             (Op::Build, World::Named(_)) => "cache_hnsw_index",
+            (Op::Store(..) | Op::StoreMeta(..), World::Entity) => "set_entity_embedding",
+            (Op::Delete(..), World::Entity) => "remove_entity_embedding",
         }
     }
     fn to_json(&self) -> Value {
@@ -201,6 +317,11 @@ impl Op {
             Op::BatchDelete(ks) => json!({"op":"batch_delete","keys":ks}),
             Op::Clear => json!({"op":"clear"}),
             Op::Build => json!({"op":"build_index"}),
+            Op::SetTag(k, t) => json!({"op":"set_tag","key":k,"tag":t}),
+            Op::DropTag(k) => json!({"op":"drop_tag","key":k}),
+            Op::Noise => json!({"op":"noise"}),
+            Op::Save => json!({"op":"save"}),
+            Op::Load(bin) => json!({"op":"load","binary":bin}),
         }
     }
     fn from_json(v: &Value) -> Option<Op> {
@@ -213,6 +334,11 @@ impl Op {
             "batch_delete" => Op::BatchDelete(v.get("keys")?.as_array()?.iter().map(|k| skey(k.as_str()?)).collect::<Option<Vec<_>>>()?),
             "clear" => Op::Clear,
             "build_index" => Op::Build,
+            "set_tag" => Op::SetTag(key()?, stag(v.get("tag")?.as_str()?)?),
+            "drop_tag" => Op::DropTag(key()?),
+            "noise" => Op::Noise,
+            "save" => Op::Save,
+            "load" => Op::Load(v.get("binary")?.as_bool()?),
             _ => return None,
         })
     }
@@ -230,10 +356,20 @@ struct Model {
     dead: Vec<(&'static str, Vec<f32>)>,
     /// metric of the named collection (cosine once its configuration is gone)
     metric: M,
+    /// configuration the engine under test was built with
+    cfg: Cfg,
+    /// what the files written by the last Save hold (data and collection metric)
+    saved: Option<(Data, M)>,
 }
 impl Model {
-    fn new(w: World) -> Model {
-        Model { data: Data::new(), snap: None, since_build: vec![], dead: vec![], metric: if let World::Named(m) = w { m } else { M::Cos } }
+    fn new(w: World, cfg: Cfg) -> Model {
+        Model { data: Data::new(), snap: None, since_build: vec![], dead: vec![], metric: if let World::Named(m) = w { m } else { M::Cos }, cfg, saved: None }
+    }
+    /// change of metadata only: the vector, and with it any index built from it, stays as it is
+    fn retag(&mut self, k: &'static str, tag: Option<&'static str>) {
+        if let Some(e) = self.data.get_mut(k) {
+            e.1 = tag;
+        }
     }
     fn vectors(&self) -> BTreeMap<&'static str, Vec<f32>> {
         self.data.iter().map(|(k, (v, _))| (*k, v.clone())).collect()
@@ -272,6 +408,17 @@ impl Model {
             t.hash(&mut h);
         }
         self.metric.hash(&mut h);
+        self.cfg.hash(&mut h);
+        if let Some((d, m)) = &self.saved {
+            m.hash(&mut h);
+            for (k, (v, t)) in d {
+                k.hash(&mut h);
+                for x in v {
+                    x.to_bits().hash(&mut h);
+                }
+                t.hash(&mut h);
+            }
+        }
         self.snap.is_some().hash(&mut h);
         self.cache_valid().hash(&mut h);
         self.since_build.hash(&mut h);
@@ -285,19 +432,39 @@ fn meta(tag: &str) -> HashMap<String, TensorValue> {
     m
 }
 
+/// scratch files of the Save / Load ops of the history running in this thread
+fn save_paths() -> (String, String) {
+    let root = nvc::env::scratch_root();
+    let t: String = format!("{:?}", std::thread::current().id()).chars().filter(char::is_ascii_digit).collect();
+    (format!("{root}/c06-{t}.json"), format!("{root}/c06-{t}.bin"))
+}
+fn remove_save_files() {
+    let (j, b) = save_paths();
+    let _ = std::fs::remove_file(j);
+    let _ = std::fs::remove_file(b);
+}
+
 /// run `op` on the real engine and mirror its documented effect in the model
 fn apply(e: &VectorEngine, w: World, op: &Op, model: &mut Model) -> Result<bool, String> {
     let kind = op.kind(w);
     let named = matches!(w, World::Named(_));
+    let entity = w == World::Entity;
     match op {
         Op::Store(k, v) => {
-            let r = if named { e.store_in_collection(COLL, k, v.clone()) } else { e.store_embedding(k, v.clone()) };
+            let r = match w {
+                World::Named(_) => e.store_in_collection(COLL, k, v.clone()),
+                World::Default => e.store_embedding(k, v.clone()),
+                World::Entity => e.set_entity_embedding(k, v.clone()),
+            };
             if r.is_ok() {
                 model.put(k, v, None, kind);
             }
             Ok(r.is_ok())
         }
         Op::StoreMeta(k, v, t) => {
+            if entity {
+                return Ok(false);
+            }
             let r = if named { e.store_in_collection_with_metadata(COLL, k, v.clone(), meta(t)) } else { e.store_embedding_with_metadata(k, v.clone(), meta(t)) };
             if r.is_ok() {
                 model.put(k, v, Some(t), kind);
@@ -305,22 +472,36 @@ fn apply(e: &VectorEngine, w: World, op: &Op, model: &mut Model) -> Result<bool,
             Ok(r.is_ok())
         }
         Op::Delete(k) => {
-            let r = if named { e.delete_from_collection(COLL, k) } else { e.delete_embedding(k) };
+            let r = match w {
+                World::Named(_) => e.delete_from_collection(COLL, k),
+                World::Default => e.delete_embedding(k),
+                World::Entity => e.remove_entity_embedding(k),
+            };
             if r.is_ok() {
                 model.del(k, kind);
             }
             Ok(r.is_ok())
         }
         Op::BatchStore(items) => {
-            let r = e.batch_store_embeddings(items.iter().map(|(k, v)| EmbeddingInput::new(*k, v.clone())).collect());
-            if r.is_ok() {
-                for (k, v) in items {
-                    model.put(k, v, None, kind);
-                }
+            if w != World::Default {
+                return Ok(false);
             }
-            Ok(r.is_ok())
+            let r = e.batch_store_embeddings(items.iter().map(|(k, v)| EmbeddingInput::new(*k, v.clone())).collect());
+            match r {
+                Ok(_) => {
+                    for (k, v) in items {
+                        model.put(k, v, None, kind);
+                    }
+                    Ok(true)
+                }
+                // a failed batch may have stored a part of its items: the alphabets never ask for one
+                Err(err) => Err(format!("batch_store_embeddings failed: {err}")),
+            }
         }
         Op::BatchDelete(ks) => {
+            if w != World::Default {
+                return Ok(false);
+            }
             let r = e.batch_delete_embeddings(ks.iter().map(|k| (*k).to_string()).collect());
             if r.is_ok() {
                 for k in ks {
@@ -330,17 +511,77 @@ fn apply(e: &VectorEngine, w: World, op: &Op, model: &mut Model) -> Result<bool,
             Ok(r.is_ok())
         }
         Op::Clear => {
+            if entity {
+                return Ok(false);
+            }
+            let ks: Vec<&'static str> = model.data.keys().copied().collect();
             let ok = if named { e.delete_collection(COLL).is_ok() } else { e.clear().is_ok() };
             if ok {
-                let ks: Vec<&'static str> = model.data.keys().copied().collect();
+                // with max_keys_per_scan set, clear() removes one page of at most that many embeddings ("call again
+                // until 0 is returned"); which ones is unspecified, so the model follows the engine's choice
+                let page_only = !named && model.cfg.scan_bound().is_some_and(|b| ks.len() > b);
                 for k in ks {
-                    model.del(k, kind);
+                    if !page_only || !e.exists(k) {
+                        model.del(k, kind);
+                    }
                 }
                 if named {
                     model.metric = M::Cos;
                 }
             }
             Ok(ok)
+        }
+        Op::SetTag(k, t) => {
+            if w != World::Default {
+                return Ok(false);
+            }
+            let r = e.update_metadata(k, meta(t));
+            if r.is_ok() {
+                model.retag(k, Some(t));
+            }
+            Ok(r.is_ok())
+        }
+        Op::DropTag(k) => {
+            if w != World::Default {
+                return Ok(false);
+            }
+            let r = e.remove_metadata_field(k, "t");
+            if r.is_ok() {
+                model.retag(k, None);
+            }
+            Ok(r.is_ok())
+        }
+        Op::Noise => Ok(e.store_embedding("a", vec![1.0, 1.0]).is_ok()),
+        Op::Save => {
+            if entity {
+                return Ok(false);
+            }
+            let (j, b) = save_paths();
+            let coll = if named { COLL } else { VectorEngine::DEFAULT_COLLECTION };
+            e.save_index(coll, &j).map_err(|x| format!("save_index failed: {x}"))?;
+            e.save_index_binary(coll, &b).map_err(|x| format!("save_index_binary failed: {x}"))?;
+            model.saved = Some((model.data.clone(), model.metric));
+            Ok(true)
+        }
+        Op::Load(bin) => {
+            let Some((saved, metric)) = model.saved.clone() else {
+                return Ok(false);
+            };
+            let (j, b) = save_paths();
+            let r = if *bin { e.load_index_binary(&b) } else { e.load_index(&j) };
+            match r {
+                Ok(_) => {
+                    for (k, (v, t)) in &saved {
+                        model.put(k, v, *t, kind);
+                    }
+                    if named {
+                        model.metric = metric;
+                    }
+                    Ok(true)
+                }
+                // a failed load may have restored a part of the file: never expected
+                Err(err) => Err(format!("{kind} failed: {err}")),
+            }
         }
         Op::Build => {
             if named {
@@ -363,6 +604,9 @@ fn apply(e: &VectorEngine, w: World, op: &Op, model: &mut Model) -> Result<bool,
                 model.since_build.clear();
                 Ok(true)
             } else {
+                if entity {
+                    return Ok(false);
+                }
                 let ok = guarded(|| e.build_and_cache_index(HNSWConfig::default()).is_ok())?;
                 if ok {
                     model.snap = Some((model.vectors(), M::Cos));
@@ -380,8 +624,8 @@ fn apply(e: &VectorEngine, w: World, op: &Op, model: &mut Model) -> Result<bool,
 // retired after MAX_USES histories. Every node on which a violation is seen is re-run on a brand-new engine and only
 // what is observed there is reported.
 const MAX_USES: u32 = 24;
-static POOL: std::sync::Mutex<Vec<(VectorEngine, u32)>> = std::sync::Mutex::new(Vec::new());
-struct Lease(Option<(VectorEngine, u32)>);
+static POOL: [std::sync::Mutex<Vec<(VectorEngine, u32)>>; NCFG] = [const { std::sync::Mutex::new(Vec::new()) }; NCFG];
+struct Lease(Option<(VectorEngine, u32)>, Cfg);
 fn reset_engine(e: &VectorEngine) -> bool {
     e.invalidate_hnsw_cache("_default");
     e.invalidate_hnsw_cache(COLL);
@@ -394,16 +638,16 @@ fn reset_engine(e: &VectorEngine) -> bool {
     e.store().scan("").is_empty() && e.store().len() == 0 && e.list_collections().is_empty()
 }
 impl Lease {
-    fn get(fresh: bool) -> Lease {
+    fn get(cfg: Cfg, fresh: bool) -> Lease {
         if !fresh {
-            let got = POOL.lock().unwrap().pop();
+            let got = POOL[cfg as usize].lock().unwrap().pop();
             if let Some((e, n)) = got {
                 if guarded(|| reset_engine(&e)).unwrap_or(false) {
-                    return Lease(Some((e, n + 1)));
+                    return Lease(Some((e, n + 1)), cfg);
                 }
             }
         }
-        Lease(Some((VectorEngine::new(), if fresh { u32::MAX } else { 0 })))
+        Lease(Some((cfg.engine(), if fresh { u32::MAX } else { 0 })), cfg)
     }
 }
 impl std::ops::Deref for Lease {
@@ -416,7 +660,7 @@ impl Drop for Lease {
     fn drop(&mut self) {
         if let Some((e, n)) = self.0.take() {
             if n < MAX_USES {
-                let mut p = POOL.lock().unwrap();
+                let mut p = POOL[self.1 as usize].lock().unwrap();
                 if p.len() < 64 {
                     p.push((e, n));
                 }
@@ -424,10 +668,14 @@ impl Drop for Lease {
         }
     }
 }
+/// engines of a configuration that is not used any more
+fn drain_pool(cfg: Cfg) {
+    POOL[cfg as usize].lock().unwrap().clear();
+}
 
 /// run a history on an empty engine
-fn setup(e: &VectorEngine, w: World, ops: &[Op]) -> Result<(Model, bool), String> {
-    let mut model = Model::new(w);
+fn setup(e: &VectorEngine, w: World, cfg: Cfg, ops: &[Op]) -> Result<(Model, bool), String> {
+    let mut model = Model::new(w, cfg);
     if let World::Named(m) = w {
         e.create_collection(COLL, VectorCollectionConfig::default().with_metric(m.engine())).map_err(|e| e.to_string())?;
     }
@@ -457,6 +705,17 @@ enum Api {
     Filtered(Filt, Strat),
     InColl,
     FilteredColl(Filt, Strat),
+    /// search_similar_paginated(q, k, Pagination { skip, limit })
+    Paged(usize, Option<usize>),
+    Entities,
+    /// search_entities_paginated
+    EntPaged(usize, Option<usize>),
+}
+fn page_name(skip: usize, limit: Option<usize>) -> String {
+    format!("{skip}:{}", limit.map_or("none".to_string(), |l| l.to_string()))
+}
+fn page_parse(skip: &str, limit: &str) -> Option<(usize, Option<usize>)> {
+    Some((skip.parse().ok()?, if limit == "none" { None } else { Some(limit.parse().ok()?) }))
 }
 impl Filt {
     fn name(self) -> &'static str {
@@ -502,6 +761,9 @@ impl Api {
             Api::Filtered(f, s) => format!("search_similar_filtered:{}:{}", f.name(), s.name()),
             Api::InColl => "search_in_collection".into(),
             Api::FilteredColl(f, s) => format!("search_filtered_in_collection:{}:{}", f.name(), s.name()),
+            Api::Paged(s, l) => format!("search_similar_paginated:{}", page_name(s, l)),
+            Api::Entities => "search_entities".into(),
+            Api::EntPaged(s, l) => format!("search_entities_paginated:{}", page_name(s, l)),
         }
     }
     fn func(self) -> &'static str {
@@ -511,7 +773,20 @@ impl Api {
             Api::Filtered(..) => "search_similar_filtered",
             Api::InColl => "search_in_collection",
             Api::FilteredColl(..) => "search_filtered_in_collection",
+            Api::Paged(..) => "search_similar_paginated",
+            Api::Entities => "search_entities",
+            Api::EntPaged(..) => "search_entities_paginated",
         }
+    }
+    /// (skip, limit) of the paginated variants
+    fn page(self) -> Option<(usize, Option<usize>)> {
+        match self {
+            Api::Paged(s, l) | Api::EntPaged(s, l) => Some((s, l)),
+            _ => None,
+        }
+    }
+    fn is_entity(self) -> bool {
+        matches!(self, Api::Entities | Api::EntPaged(..))
     }
     fn parse(s: &str) -> Option<Api> {
         let p: Vec<&str> = s.split(':').collect();
@@ -523,6 +798,9 @@ impl Api {
             ("search_similar_filtered", 3) => Api::Filtered(filt(p[1])?, strat(p[2])?),
             ("search_in_collection", 1) => Api::InColl,
             ("search_filtered_in_collection", 3) => Api::FilteredColl(filt(p[1])?, strat(p[2])?),
+            ("search_similar_paginated", 3) => page_parse(p[1], p[2]).map(|(s, l)| Api::Paged(s, l))?,
+            ("search_entities", 1) => Api::Entities,
+            ("search_entities_paginated", 3) => page_parse(p[1], p[2]).map(|(s, l)| Api::EntPaged(s, l))?,
             _ => return None,
         })
     }
@@ -541,7 +819,7 @@ impl Api {
     }
     fn metric(self, model: &Model) -> M {
         match self {
-            Api::Similar | Api::Filtered(..) => M::Cos,
+            Api::Similar | Api::Filtered(..) | Api::Paged(..) | Api::Entities | Api::EntPaged(..) => M::Cos,
             Api::Metric(m) => m,
             Api::InColl | Api::FilteredColl(..) => model.metric,
         }
@@ -560,6 +838,9 @@ fn run_api(e: &VectorEngine, api: Api, q: &[f32], k: usize) -> Outcome {
         Api::Filtered(f, s) => e.search_similar_filtered(q, k, &f.cond(), s.cfg()),
         Api::InColl => e.search_in_collection(COLL, q, k),
         Api::FilteredColl(f, s) => e.search_filtered_in_collection(COLL, q, k, &f.cond(), s.cfg()),
+        Api::Paged(skip, limit) => e.search_similar_paginated(q, k, Pagination { skip, limit, count_total: true }).map(|p| p.items),
+        Api::Entities => e.search_entities(q, k),
+        Api::EntPaged(skip, limit) => e.search_entities_paginated(q, k, Pagination { skip, limit, count_total: false }).map(|p| p.items),
     });
     match r {
         Ok(Ok(v)) => Outcome::Ok(v),
@@ -645,8 +926,55 @@ fn check_exact(res: &[SearchResult], model: &Model, metric: M, q: &[f32], k: usi
     None
 }
 
+/// exact path, one page: positions skip.. (at most `limit` of them) of the ranking cut at min(k, skip+limit)
+#[allow(clippy::too_many_arguments)]
+fn check_page(res: &[SearchResult], model: &Model, metric: M, q: &[f32], k: usize, f: Filt, skip: usize, limit: Option<usize>) -> Option<Fail> {
+    let cands: Vec<(&str, &[f32], Option<f64>)> = model.data.iter().filter(|(_, (v, t))| v.len() == q.len() && f.matches(*t)).map(|(k, (v, _))| (*k, v.as_slice(), true_score(metric, q, v))).collect();
+    let window = k.min(skip.saturating_add(limit.unwrap_or(k))).min(cands.len());
+    let want = window.saturating_sub(skip).min(limit.unwrap_or(usize::MAX));
+    let mut seen = BTreeSet::new();
+    let mut trues: Vec<Option<f64>> = vec![];
+    for r in res {
+        let Some(c) = cands.iter().find(|c| c.0 == r.key) else {
+            return Some(classify_foreign(&r.key, model, q, f));
+        };
+        if !seen.insert(r.key.clone()) {
+            return fail("duplicate", format!("key {} returned twice", r.key));
+        }
+        if let Some(t) = c.2 {
+            if !((f64::from(r.score) - t).abs() <= SCORE_TOL) {
+                return fail("score", format!("key {} reported score {} but the {} score of {:?} is {t}", r.key, r.score, metric.name(), c.1));
+            }
+        }
+        trues.push(c.2);
+    }
+    if res.len() < want {
+        return fail("too-few", format!("{} results on the page, {} candidates, k={k}, skip={skip}, limit={limit:?}", res.len(), cands.len()));
+    }
+    if res.len() > want {
+        return fail("too-many", format!("{} results on the page for k={k}, skip={skip}, limit={limit:?}", res.len()));
+    }
+    // with every score defined, the vector at rank r of any correct ranking has the r-th best score
+    if cands.iter().all(|c| c.2.is_some()) {
+        let mut sorted: Vec<f64> = cands.iter().filter_map(|c| c.2).collect();
+        sorted.sort_by(|a, b| b.partial_cmp(a).unwrap_or(std::cmp::Ordering::Equal));
+        for (i, t) in trues.iter().enumerate() {
+            if let (Some(t), Some(want)) = (t, sorted.get(skip + i)) {
+                if !((t - want).abs() <= TIE_TOL) {
+                    return fail("page-rank", format!("{} (score {t}) is at rank {} where the score is {want}", res[i].key, skip + i));
+                }
+            }
+        }
+    }
+    None
+}
+
 /// index path: every key currently indexed, true score, no duplicates, ordered, at most k
 fn check_weak(res: &[SearchResult], model: &Model, metric: M, q: &[f32], k: usize, f: Filt) -> Option<Fail> {
+    check_weak_by(res, model, metric.name(), &|v| true_score(metric, q, v), q, k, f)
+}
+/// the same with the score function given (`search_with_hnsw_and_metric` maps cosine to [0, 1])
+fn check_weak_by(res: &[SearchResult], model: &Model, metric_name: &str, score: &dyn Fn(&[f32]) -> Option<f64>, q: &[f32], k: usize, f: Filt) -> Option<Fail> {
     if res.len() > k {
         return fail("too-many", format!("{} results for k={k}", res.len()));
     }
@@ -662,10 +990,10 @@ fn check_weak(res: &[SearchResult], model: &Model, metric: M, q: &[f32], k: usiz
         if !seen.insert(r.key.clone()) {
             return fail("duplicate", format!("key {} returned twice", r.key));
         }
-        let t = true_score(metric, q, v);
+        let t = score(v);
         if let Some(t) = t {
             if !((f64::from(r.score) - t).abs() <= SCORE_TOL) {
-                return fail("score", format!("key {} reported score {} but the {} score of {v:?} is {t}", r.key, r.score, metric.name()));
+                return fail("score", format!("key {} reported score {} but the {metric_name} score of {v:?} is {t}", r.key, r.score));
             }
         }
         if let Some((ps, pt)) = prev {
@@ -680,15 +1008,21 @@ fn check_weak(res: &[SearchResult], model: &Model, metric: M, q: &[f32], k: usiz
     None
 }
 
+/// which oracle applies: the index oracle while a cached index is valid, and for entity searches on an engine with a
+/// scan bound (search_entities scans at most max_keys_per_scan store keys by explicit design: soundness only)
+fn weak_for(api: Api, model: &Model) -> bool {
+    model.cache_valid() || (api.is_entity() && model.cfg.scan_bound().is_some())
+}
 fn judge(out: &Outcome, weak: bool, model: &Model, api: Api, q: &[f32], k: usize) -> Option<Fail> {
     match out {
-        Outcome::Ok(res) => {
-            if weak {
-                check_weak(res, model, api.metric(model), q, k, api.filt())
-            } else {
-                check_exact(res, model, api.metric(model), q, k, api.filt())
-            }
-        }
+        Outcome::Ok(res) => match (weak, api.page()) {
+            (true, None) => check_weak(res, model, api.metric(model), q, k, api.filt()),
+            (true, Some((_, limit))) => check_weak(res, model, api.metric(model), q, limit.map_or(k, |l| l.min(k)), api.filt()),
+            (false, None) => check_exact(res, model, api.metric(model), q, k, api.filt()),
+            (false, Some((skip, limit))) => check_page(res, model, api.metric(model), q, k, api.filt(), skip, limit),
+        },
+        // documented: a query longer than max_dimension is rejected (nothing that long can be stored either)
+        Outcome::Err(_) if model.cfg.max_dim().is_some_and(|m| q.len() > m) => None,
         Outcome::Err(e) => fail("error", format!("search failed: {e}")),
         Outcome::Panic(p) => fail("panic", format!("search panicked: {p}")),
     }
@@ -702,6 +1036,7 @@ struct Acc {
     weak_checks: u64,
     exact_checks: u64,
     readbacks: u64,
+    listings: u64,
     nontrivial_searches: u64,
     states: HashSet<u64>,
     nontrivial_states: HashSet<u64>,
@@ -742,6 +1077,7 @@ impl Acc {
         self.weak_checks += o.weak_checks;
         self.exact_checks += o.exact_checks;
         self.readbacks += o.readbacks;
+        self.listings += o.listings;
         self.nontrivial_searches += o.nontrivial_searches;
         self.states.extend(o.states);
         self.nontrivial_states.extend(o.nontrivial_states);
@@ -776,16 +1112,19 @@ struct Battery {
 struct Ctx<'a> {
     part: &'a str,
     world: World,
+    cfg: Cfg,
     battery: &'a Battery,
 }
 
-fn case_json(part: &str, w: World, ops: &[Op], api: Api, q: &[f32], k: usize) -> Value {
-    json!({"part": part, "world": w.name(), "ops": ops.iter().map(Op::to_json).collect::<Vec<_>>(), "api": api.name(), "query": q, "k": k})
+fn case_json(part: &str, w: World, cfg: Cfg, ops: &[Op], api: Api, q: &[f32], k: usize) -> Value {
+    json!({"part": part, "world": w.name(), "cfg": cfg.name(), "ops": ops.iter().map(Op::to_json).collect::<Vec<_>>(), "api": api.name(), "query": q, "k": k})
 }
 
 /// decide the signature of a failed search by re-running variants on a fresh replay of the same history
+#[allow(clippy::too_many_arguments)]
 fn diagnose(e: &VectorEngine, w: World, ops: &[Op], model: &Model, api: Api, q: &[f32], k: usize, weak: bool, f: &Fail, out: &Outcome) -> String {
-    if weak {
+    let cfg = model.cfg;
+    if model.cache_valid() {
         if matches!(f.kind, "wrong-dimension" | "panic") && model.snap.as_ref().is_some_and(|(s, _)| s.values().next().is_some_and(|v| v.len() != q.len())) {
             return format!("c06:cached-index-ignores-query-dimension:{}", w.short());
         }
@@ -796,11 +1135,11 @@ fn diagnose(e: &VectorEngine, w: World, ops: &[Op], model: &Model, api: Api, q: 
         }
         return format!("c06:cached-index:{}:{}", api.func(), f.kind);
     }
-    if let (Ok(true), Ok((m2, _))) = (guarded(|| reset_engine(e)), setup(e, w, ops)) {
+    if let (Ok(true), Ok((m2, _))) = (guarded(|| reset_engine(e)), setup(e, w, cfg, ops)) {
         // 1. is a stale cached index the cause?
         if model.snap.is_some() {
             e.invalidate_hnsw_cache(if w == World::Default { "_default" } else { COLL });
-            if judge(&run_api(e, api, q, k), false, &m2, api, q, k).is_none() {
+            if judge(&run_api(e, api, q, k), weak_for(api, &m2), &m2, api, q, k).is_none() {
                 let culprit = model.since_build.first().copied().unwrap_or("unknown");
                 return format!("c06:stale-index-after-{culprit}");
             }
@@ -825,12 +1164,32 @@ fn diagnose(e: &VectorEngine, w: World, ops: &[Op], model: &Model, api: Api, q: 
             }
         }
     }
+    // 4. does the same history pass on an engine with the default configuration?
+    if cfg != Cfg::Default {
+        let d = Lease::get(Cfg::Default, false);
+        if let Ok((m3, _)) = setup(&d, w, Cfg::Default, ops) {
+            if judge(&run_api(&d, api, q, k), weak_for(api, &m3), &m3, api, q, k).is_none() {
+                // a filtered search that looked at one page of keys only
+                if let (Some(b), Api::Filtered(..)) = (cfg.scan_bound(), api) {
+                    if model.data.len() > b && matches!(f.kind, "too-few" | "not-top-k") {
+                        return "c06:scan-bound-truncates:search_similar_filtered".to_string();
+                    }
+                }
+                return format!("c06:cfg-{}:{}:{}:{}", cfg.name(), w.short(), api.func(), f.kind);
+            }
+        }
+    }
+    let _ = weak;
     format!("c06:{}:{}:{}", w.short(), api.func(), f.kind)
 }
 
 fn readback(e: &VectorEngine, w: World, model: &Model) -> Option<Fail> {
     for k in KEYS {
-        let got = if w == World::Default { e.get_embedding(k).ok() } else { e.get_from_collection(COLL, k).ok() };
+        let got = match w {
+            World::Default => e.get_embedding(k).ok(),
+            World::Named(_) => e.get_from_collection(COLL, k).ok(),
+            World::Entity => e.get_entity_embedding(k).ok(),
+        };
         match (model.data.get(k), got) {
             (None, None) => {}
             (Some((v, _)), Some(g)) => {
@@ -840,6 +1199,102 @@ fn readback(e: &VectorEngine, w: World, model: &Model) -> Option<Fail> {
             }
             (Some((v, _)), None) => return fail("missing", format!("key {k}: stored {v:?}, not found")),
             (None, Some(g)) => return fail("deleted-key-readable", format!("key {k} was deleted or never stored but reads back {g:?}")),
+        }
+    }
+    None
+}
+
+/// one listing compared with the reference: every key live (and matching), none twice, complete unless a scan bound
+/// applies, never longer than `max_len`
+fn list_check(func: &'static str, got: &[String], universe: &BTreeSet<&'static str>, model: &Model, complete: bool, max_len: Option<usize>) -> Option<(&'static str, Fail)> {
+    let mut seen = BTreeSet::new();
+    for k in got {
+        if !universe.contains(k.as_str()) {
+            let kind = if model.data.contains_key(k.as_str()) {
+                "non-matching-key"
+            } else if model.dead.iter().any(|(d, _)| *d == k.as_str()) {
+                "deleted-key"
+            } else {
+                "foreign-key"
+            };
+            return Some((func, Fail { kind, msg: format!("{func} returned {got:?}; expected keys {universe:?}") }));
+        }
+        if !seen.insert(k.as_str()) {
+            return Some((func, Fail { kind: "duplicate", msg: format!("{func} returned {got:?}") }));
+        }
+    }
+    if complete && seen.len() != universe.len() {
+        return Some((func, Fail { kind: "incomplete", msg: format!("{func} returned {got:?}; expected keys {universe:?}") }));
+    }
+    if max_len.is_some_and(|m| got.len() > m) {
+        return Some((func, Fail { kind: "too-long", msg: format!("{func} returned {got:?}, more than {max_len:?}") }));
+    }
+    None
+}
+fn count_check(func: &'static str, got: usize, want: usize) -> Option<(&'static str, Fail)> {
+    (got != want).then(|| (func, Fail { kind: "count-differs", msg: format!("{func} = {got}, {want} embeddings are stored") }))
+}
+
+/// every listing function of the world against the reference key set; returns the number of comparisons made
+fn listings(e: &VectorEngine, w: World, model: &Model, n: &mut u64) -> Option<(&'static str, Fail)> {
+    let live: BTreeSet<&'static str> = model.data.keys().copied().collect();
+    let cnt = live.len();
+    let mut tick = |r: Option<(&'static str, Fail)>| {
+        *n += 1;
+        r
+    };
+    match w {
+        World::Default => {
+            let bound = model.cfg.scan_bound();
+            let complete = bound.is_none_or(|b| cnt <= b);
+            tick(list_check("list_keys", &e.list_keys(), &live, model, complete, bound))?;
+            tick(list_check("list_keys_bounded", &e.list_keys_bounded(), &live, model, complete, bound))?;
+            tick(count_check("count", e.count(), cnt))?;
+            for k in KEYS {
+                tick((e.exists(k) != live.contains(k)).then(|| ("exists", Fail { kind: "differs", msg: format!("exists({k}) = {}", e.exists(k)) })))?;
+            }
+            let mut union: Vec<String> = vec![];
+            for (skip, limit) in [(0usize, Some(1usize)), (1, Some(1)), (2, Some(1)), (3, Some(1)), (0, Some(2)), (1, Some(2)), (1, None), (0, Some(cnt + 1))] {
+                let page = e.list_keys_paginated(Pagination { skip, limit, count_total: true });
+                tick(list_check("list_keys_paginated", &page.items, &live, model, false, limit))?;
+                if bound.is_none() {
+                    let want = cnt.saturating_sub(skip).min(limit.unwrap_or(usize::MAX));
+                    tick((page.items.len() != want).then(|| ("list_keys_paginated", Fail { kind: "page-size", msg: format!("skip={skip} limit={limit:?}: {:?} of {live:?}", page.items) })))?;
+                }
+                tick((page.total_count != Some(cnt)).then(|| ("list_keys_paginated", Fail { kind: "count-differs", msg: format!("total_count = {:?}, {cnt} embeddings are stored", page.total_count) })))?;
+                if limit == Some(1) {
+                    union.extend(page.items);
+                }
+            }
+            if bound.is_none() {
+                // the one-key pages at skip 0..3 together are the whole key set
+                tick(list_check("list_keys_paginated", &union, &live, model, true, None))?;
+            }
+            let tagged: BTreeSet<&'static str> = model.data.iter().filter(|(_, (_, t))| *t == Some("x")).map(|(k, _)| *k).collect();
+            let matching = e.list_keys_matching(&Filt::TagX.cond());
+            tick(list_check("list_keys_matching", &matching, &tagged, model, complete, None))?;
+            if complete {
+                tick(count_check("count_matching", e.count_matching(&Filt::TagX.cond()), tagged.len()))?;
+            }
+            let dim = e.dimension();
+            tick((dim.is_none() != live.is_empty() || dim.is_some_and(|d| !model.data.values().any(|(v, _)| v.len() == d))).then(|| ("dimension", Fail { kind: "differs", msg: format!("dimension() = {dim:?}") })))?;
+        }
+        World::Named(_) => {
+            tick(list_check("list_collection_keys", &e.list_collection_keys(COLL), &live, model, true, None))?;
+            tick(count_check("collection_count", e.collection_count(COLL), cnt))?;
+            for k in KEYS {
+                tick((e.exists_in_collection(COLL, k) != live.contains(k)).then(|| ("exists_in_collection", Fail { kind: "differs", msg: format!("exists_in_collection({k}) = {}", e.exists_in_collection(COLL, k)) })))?;
+            }
+        }
+        World::Entity => {
+            let bound = model.cfg.scan_bound();
+            tick(list_check("scan_entities_with_embeddings", &e.scan_entities_with_embeddings(), &live, model, bound.is_none(), bound))?;
+            if bound.is_none() {
+                tick(count_check("count_entities_with_embeddings", e.count_entities_with_embeddings(), cnt))?;
+            }
+            for k in KEYS {
+                tick((e.entity_has_embedding(k) != live.contains(k)).then(|| ("entity_has_embedding", Fail { kind: "differs", msg: format!("entity_has_embedding({k}) = {}", e.entity_has_embedding(k)) })))?;
+            }
         }
     }
     None
@@ -863,7 +1318,7 @@ fn check_node(ctx: &Ctx, ops: &[Op], acc: &mut Acc) {
     let mut local = Acc::default();
     {
         // engines are obtained outside the node thread so that pooled-or-new does not shift its hasher seed sequence
-        let (e, d) = (Lease::get(false), Lease::get(false));
+        let (e, d) = (Lease::get(ctx.cfg, false), Lease::get(ctx.cfg, false));
         in_thread(|| node_body(ctx, ops, &mut local, &e, &d));
     }
     let wanted = local.viol.keys().any(|sig| acc.wants(sig, ops.len()));
@@ -871,7 +1326,7 @@ fn check_node(ctx: &Ctx, ops: &[Op], acc: &mut Acc) {
         // re-run the whole node on a brand-new engine; artefacts are taken from that run only
         let mut fresh = Acc::default();
         {
-            let (e, d) = (Lease::get(true), Lease::get(false));
+            let (e, d) = (Lease::get(ctx.cfg, true), Lease::get(ctx.cfg, false));
             in_thread(|| node_body(ctx, ops, &mut fresh, &e, &d));
         }
         for sig in local.viol.keys() {
@@ -893,8 +1348,15 @@ fn check_node(ctx: &Ctx, ops: &[Op], acc: &mut Acc) {
     acc.merge(local);
 }
 fn node_body(ctx: &Ctx, ops: &[Op], acc: &mut Acc, e: &VectorEngine, diag: &VectorEngine) {
+    node_inner(ctx, ops, acc, e, diag);
+    if ops.iter().any(|o| matches!(o, Op::Save)) {
+        remove_save_files();
+    }
+}
+fn node_inner(ctx: &Ctx, ops: &[Op], acc: &mut Acc, e: &VectorEngine, diag: &VectorEngine) {
     let w = ctx.world;
-    let (model, last_ok) = match setup(e, w, ops) {
+    let cfg = ctx.cfg;
+    let (model, last_ok) = match setup(e, w, cfg, ops) {
         Ok(x) => x,
         Err(p) => {
             acc.machinery.get_or_insert(format!("mutator panicked or set-up failed on {:?}: {p}", ops));
@@ -909,9 +1371,13 @@ fn node_body(ctx: &Ctx, ops: &[Op], acc: &mut Acc, e: &VectorEngine, diag: &Vect
     }
     // representation reached by the last store
     if let Some(Op::Store(k, _) | Op::StoreMeta(k, _, _)) = ops.last() {
-        let sk = if w == World::Default { format!("emb:{k}") } else { format!("coll:{COLL}:emb:{k}") };
+        let (sk, field) = match w {
+            World::Default => (format!("emb:{k}"), "vector"),
+            World::Named(_) => (format!("coll:{COLL}:emb:{k}"), "vector"),
+            World::Entity => ((*k).to_string(), "_embedding"),
+        };
         if let Ok(t) = e.store().get(&sk) {
-            match t.get("vector") {
+            match t.get(field) {
                 Some(TensorValue::Sparse(_)) => acc.sparse_stored += 1,
                 Some(TensorValue::Vector(_)) => acc.dense_stored += 1,
                 _ => {}
@@ -919,19 +1385,22 @@ fn node_body(ctx: &Ctx, ops: &[Op], acc: &mut Acc, e: &VectorEngine, diag: &Vect
         }
     }
     acc.readbacks += 1;
-    if let Some(f) = readback(&e, w, &model) {
-        acc.violation(format!("c06:readback:{}:{}", w.short(), f.kind), ops.len(), format!("after {:?}: {}", ops, f.msg), json!({"part": ctx.part, "world": w.name(), "ops": ops.iter().map(Op::to_json).collect::<Vec<_>>(), "api": "readback"}));
+    if let Some(f) = readback(e, w, &model) {
+        acc.violation(format!("c06:readback:{}:{}", w.short(), f.kind), ops.len(), format!("after {:?}: {}", ops, f.msg), json!({"part": ctx.part, "world": w.name(), "cfg": cfg.name(), "ops": ops.iter().map(Op::to_json).collect::<Vec<_>>(), "api": "readback"}));
+    }
+    if let Some((func, f)) = listings(e, w, &model, &mut acc.listings) {
+        acc.violation(format!("c06:listing:{func}:{}", f.kind), ops.len(), format!("after {:?}: {}", ops, f.msg), json!({"part": ctx.part, "world": w.name(), "cfg": cfg.name(), "ops": ops.iter().map(Op::to_json).collect::<Vec<_>>(), "api": "listing"}));
     }
     if ctx.battery.skip_failed_build && matches!(ops.last(), Some(Op::Build)) && !last_ok {
         return;
     }
-    let weak = model.cache_valid();
     let ks = ks_for(model.data.len());
     for &api in &ctx.battery.apis {
         for q in &ctx.battery.queries {
             let ncand = model.data.values().filter(|(v, t)| v.len() == q.len() && api.filt().matches(*t)).count();
+            let weak = weak_for(api, &model);
             for &k in &ks {
-                let out = run_api(&e, api, q, k);
+                let out = run_api(e, api, q, k);
                 acc.searches += 1;
                 if weak {
                     acc.weak_checks += 1;
@@ -944,7 +1413,7 @@ fn node_body(ctx: &Ctx, ops: &[Op], acc: &mut Acc, e: &VectorEngine, diag: &Vect
                     if acc.sample.is_none() && k >= 2 {
                         if let Outcome::Ok(res) = &out {
                             if res.len() >= 2 && res[0].score != res[1].score {
-                                let mut c = case_json(ctx.part, w, ops, api, q, k);
+                                let mut c = case_json(ctx.part, w, cfg, ops, api, q, k);
                                 c["result"] = json!(res.iter().map(|r| json!([r.key, r.score])).collect::<Vec<_>>());
                                 c["oracle"] = json!(if weak { "index" } else { "exact" });
                                 acc.sample = Some(c);
@@ -963,7 +1432,7 @@ fn node_body(ctx: &Ctx, ops: &[Op], acc: &mut Acc, e: &VectorEngine, diag: &Vect
                         Outcome::Err(e) => json!({"error": e}),
                         Outcome::Panic(p) => json!({"panic": p}),
                     };
-                    let mut c = case_json(ctx.part, w, ops, api, q, k);
+                    let mut c = case_json(ctx.part, w, cfg, ops, api, q, k);
                     c["got"] = got.clone();
                     c["live"] = json!(model.data.iter().map(|(k, (v, t))| json!({"key": k, "vec": v, "tag": t, "score": if v.len() == q.len() { true_score(api.metric(&model), q, v) } else { None }})).collect::<Vec<_>>());
                     c["oracle"] = json!(if weak { "index (cached, data unchanged)" } else { "exact" });
@@ -1096,7 +1565,7 @@ fn r_case(e: &VectorEngine, path: &str, v: &[f32]) -> Result<(bool, Option<Vec<f
         (stored, got, sparse)
     })
 }
-fn part_readback(max_dim: usize) -> (Acc, u64) {
+fn part_readback(cfg: Cfg, max_dim: usize) -> (Acc, u64) {
     let alpha = r_alphabet();
     let mut vecs: Vec<Vec<f32>> = vec![];
     for d in 1..=max_dim {
@@ -1111,12 +1580,12 @@ fn part_readback(max_dim: usize) -> (Acc, u64) {
         .map(|chunk| {
             let mut acc = Acc::default();
             let mut rejected = 0u64;
-            let e = VectorEngine::new();
+            let e = cfg.engine();
             for v in chunk {
                 for path in R_PATHS {
                     acc.readbacks += 1;
                     let bits: Vec<u32> = v.iter().map(|x| x.to_bits()).collect();
-                    let replay = json!({"part":"R","path":path,"bits":bits});
+                    let replay = json!({"part":"R","cfg":cfg.name(),"path":path,"bits":bits});
                     match r_case(&e, path, v) {
                         Err(p) => acc.violation(format!("c06:readback:{path}:panic"), v.len(), format!("{path}({v:?}) panicked: {p}"), replay),
                         Ok((false, _, _)) => rejected += 1,
@@ -1127,7 +1596,7 @@ fn part_readback(max_dim: usize) -> (Acc, u64) {
                                 acc.dense_stored += 1;
                             }
                             if acc.sample.is_none() && sparse && v.len() >= 3 && v.iter().any(|x| x.is_nan()) && v.iter().any(|x| x.to_bits() == (-0.0f32).to_bits()) {
-                                acc.sample = Some(json!({"part":"R","path":path,"bits":bits,"vector":format!("{v:?}"),"representation":"sparse","read_back":format!("{got:?}")}));
+                                acc.sample = Some(json!({"part":"R","cfg":cfg.name(),"path":path,"bits":bits,"vector":format!("{v:?}"),"representation":"sparse","read_back":format!("{got:?}")}));
                             }
                             if !got.as_ref().is_some_and(|g| vec_eq(g, v)) {
                                 let rep_kind = if sparse { "sparse" } else { "dense" };
@@ -1260,19 +1729,216 @@ fn part_hnsw(len2: usize, len3: usize) -> Acc {
     total
 }
 
+// ------------------------------------------------------------------ Part X: indexes held by the caller
+#[derive(Clone, Copy, PartialEq, Eq, Debug)]
+enum XApi {
+    /// build_hnsw_index(default) + search_with_hnsw
+    HnswDense,
+    /// build_hnsw_index_with_options(sparse_optimized = Auto storage) + search_with_hnsw
+    HnswAuto,
+    /// build_hnsw_index_default + search_with_hnsw
+    HnswDefault,
+    /// build_hnsw_index + search_with_hnsw_and_metric(Euclidean)
+    HnswMetricEuc,
+    /// build_hnsw_index + search_with_hnsw_and_metric(Cosine): documented score (cos + 1) / 2
+    HnswMetricCos,
+    /// build_ivf_index_default + search_with_ivf
+    IvfDefault,
+    /// build_ivf_index(flat(2)) + search_with_ivf
+    IvfFlat2,
+    /// build_ivf_index(flat(2)) + search_with_ivf_nprobe(1)
+    IvfNprobe1,
+}
+const XAPIS: [XApi; 8] = [XApi::HnswDense, XApi::HnswAuto, XApi::HnswDefault, XApi::HnswMetricEuc, XApi::HnswMetricCos, XApi::IvfDefault, XApi::IvfFlat2, XApi::IvfNprobe1];
+impl XApi {
+    fn name(self) -> &'static str {
+        match self {
+            XApi::HnswDense => "build_hnsw_index+search_with_hnsw",
+            XApi::HnswAuto => "build_hnsw_index_with_options(auto)+search_with_hnsw",
+            XApi::HnswDefault => "build_hnsw_index_default+search_with_hnsw",
+            XApi::HnswMetricEuc => "build_hnsw_index+search_with_hnsw_and_metric(euclidean)",
+            XApi::HnswMetricCos => "build_hnsw_index+search_with_hnsw_and_metric(cosine)",
+            XApi::IvfDefault => "build_ivf_index_default+search_with_ivf",
+            XApi::IvfFlat2 => "build_ivf_index(flat2)+search_with_ivf",
+            XApi::IvfNprobe1 => "build_ivf_index(flat2)+search_with_ivf_nprobe(1)",
+        }
+    }
+    fn short(self) -> &'static str {
+        match self {
+            XApi::HnswDense | XApi::HnswAuto | XApi::HnswDefault => "search_with_hnsw",
+            XApi::HnswMetricEuc | XApi::HnswMetricCos => "search_with_hnsw_and_metric",
+            XApi::IvfDefault | XApi::IvfFlat2 => "search_with_ivf",
+            XApi::IvfNprobe1 => "search_with_ivf_nprobe",
+        }
+    }
+    fn parse(s: &str) -> Option<XApi> {
+        XAPIS.into_iter().find(|x| x.name() == s)
+    }
+}
+enum XIndex {
+    H(HNSWIndex, Vec<String>),
+    I(tensor_store::IVFIndex, Vec<String>),
+}
+fn x_build(e: &VectorEngine, x: XApi) -> Result<XIndex, String> {
+    guarded(|| {
+        match x {
+            XApi::HnswDense | XApi::HnswMetricEuc | XApi::HnswMetricCos => e.build_hnsw_index(HNSWConfig::default()).map(|(i, k)| XIndex::H(i, k)),
+            XApi::HnswAuto => e.build_hnsw_index_with_options(HNSWBuildOptions::sparse_optimized().with_storage(HNSWStorageStrategy::Auto)).map(|(i, k)| XIndex::H(i, k)),
+            XApi::HnswDefault => e.build_hnsw_index_default().map(|(i, k)| XIndex::H(i, k)),
+            XApi::IvfDefault => e.build_ivf_index_default().map(|(i, k)| XIndex::I(i, k)),
+            XApi::IvfFlat2 | XApi::IvfNprobe1 => e.build_ivf_index(IVFBuildOptions::flat(2)).map(|(i, k)| XIndex::I(i, k)),
+        }
+        .map_err(|e| format!("build failed: {e}"))
+    })
+    .unwrap_or_else(|p| Err(format!("build panicked: {p}")))
+}
+fn x_search(e: &VectorEngine, idx: &XIndex, x: XApi, q: &[f32], k: usize) -> Outcome {
+    let r = guarded(|| match (idx, x) {
+        (XIndex::H(i, keys), XApi::HnswMetricEuc) => e.search_with_hnsw_and_metric(i, keys, q, k, &ExtendedDistanceMetric::Euclidean),
+        (XIndex::H(i, keys), XApi::HnswMetricCos) => e.search_with_hnsw_and_metric(i, keys, q, k, &ExtendedDistanceMetric::Cosine),
+        (XIndex::H(i, keys), _) => e.search_with_hnsw(i, keys, q, k),
+        (XIndex::I(i, keys), XApi::IvfNprobe1) => e.search_with_ivf_nprobe(i, keys, q, k, 1),
+        (XIndex::I(i, keys), _) => e.search_with_ivf(i, keys, q, k),
+    });
+    match r {
+        Ok(Ok(v)) => Outcome::Ok(v),
+        Ok(Err(e)) => Outcome::Err(e.to_string()),
+        Err(p) => Outcome::Panic(p),
+    }
+}
+/// index oracle for an index the caller built from the data stored right now
+fn x_judge(out: &Outcome, x: XApi, model: &Model, q: &[f32], k: usize) -> Option<Fail> {
+    match out {
+        Outcome::Ok(res) => match x {
+            XApi::HnswDense | XApi::HnswAuto | XApi::HnswDefault => check_weak(res, model, M::Cos, q, k, Filt::True),
+            XApi::HnswMetricCos => check_weak_by(res, model, "cosine mapped to [0,1]", &|v| true_score(M::Cos, q, v).map(|c| (c + 1.0) / 2.0), q, k, Filt::True),
+            XApi::HnswMetricEuc | XApi::IvfDefault | XApi::IvfFlat2 | XApi::IvfNprobe1 => check_weak(res, model, M::Euc, q, k, Filt::True),
+        },
+        Outcome::Err(e) => fail("error", format!("search failed: {e}")),
+        Outcome::Panic(p) => fail("panic", format!("search panicked: {p}")),
+    }
+}
+fn x_model(e: &VectorEngine, vectors: &[Vec<f32>]) -> Result<Model, String> {
+    let ops: Vec<Op> = vectors.iter().enumerate().map(|(i, v)| Op::Store(KEYS[i], v.clone())).collect();
+    setup(e, World::Default, Cfg::Default, &ops).map(|(m, _)| m)
+}
+fn part_user_index(plan: &[(Vec<Vec<f32>>, usize)]) -> Acc {
+    let mut sets: Vec<Vec<Vec<f32>>> = vec![];
+    for (vectors, max_size) in plan {
+        for s in 0..=*max_size {
+            sets.extend(multisets(vectors.len(), s).into_iter().filter(|m| s > 0 || sets.is_empty() || !m.is_empty()).map(|m| m.iter().map(|i| vectors[*i].clone()).collect::<Vec<_>>()));
+        }
+    }
+    let accs: Vec<Acc> = sets
+        .par_chunks(16)
+        .map(|chunk| {
+            let mut acc = Acc::default();
+            for set in chunk {
+                let e = Lease::get(Cfg::Default, false);
+                in_thread(|| {
+                    let model = match x_model(&e, set) {
+                        Ok(m) => m,
+                        Err(p) => {
+                            acc.machinery.get_or_insert(format!("part X set-up failed on {set:?}: {p}"));
+                            return;
+                        }
+                    };
+                    acc.nodes += 1;
+                    let sh = model.state_hash();
+                    acc.states.insert(sh);
+                    let dim = set.first().map_or(2, Vec::len);
+                    let queries = nonzero(grid(dim));
+                    let distinct: BTreeSet<Vec<u32>> = set.iter().map(|v| v.iter().map(|x| x.to_bits()).collect()).collect();
+                    for x in XAPIS {
+                        let idx = x_build(&e, x);
+                        if idx.is_ok() {
+                            acc.builds_ok += 1;
+                        }
+                        for q in &queries {
+                            for k in ks_for(set.len()) {
+                                acc.searches += 1;
+                                acc.weak_checks += 1;
+                                if distinct.len() >= 2 {
+                                    acc.nontrivial_searches += 1;
+                                    acc.nontrivial_states.insert(sh);
+                                }
+                                let (out, f) = match &idx {
+                                    Ok(i) => {
+                                        let out = x_search(&e, i, x, q, k);
+                                        let f = x_judge(&out, x, &model, q, k);
+                                        (out, f)
+                                    }
+                                    Err(p) => (Outcome::Err(p.clone()), fail("build-error", p.clone())),
+                                };
+                                if acc.sample.is_none() && set.len() >= 3 && distinct.len() >= 3 && x == XApi::IvfFlat2 && k == set.len() {
+                                    if let Outcome::Ok(res) = &out {
+                                        acc.sample = Some(json!({"part":"X","vectors":set,"xapi":x.name(),"query":q,"k":k,"result":res.iter().map(|r| json!([r.key, r.score])).collect::<Vec<_>>()}));
+                                    }
+                                }
+                                if let Some(f) = f {
+                                    let got = match &out {
+                                        Outcome::Ok(res) => json!(res.iter().map(|r| json!([r.key, r.score])).collect::<Vec<_>>()),
+                                        Outcome::Err(e) => json!({"error": e}),
+                                        Outcome::Panic(p) => json!({"panic": p}),
+                                    };
+                                    let replay = json!({"part":"X","vectors":set,"xapi":x.name(),"query":q,"k":k,"got":got});
+                                    acc.violation(format!("c06:caller-held-index:{}:{}", x.short(), f.kind), set.len(), format!("{} (q={q:?}, k={k}) over {set:?} returned {got}: {}", x.name(), f.msg), replay);
+                                }
+                            }
+                        }
+                    }
+                });
+            }
+            acc
+        })
+        .collect();
+    let mut total = Acc::default();
+    for a in accs {
+        total.merge(a);
+    }
+    total
+}
+
 // ------------------------------------------------------------------ replay of one recorded case
 fn replay_case(rep: &mut Report, c: &Value) {
     let part = c.get("part").and_then(Value::as_str).unwrap_or("");
+    let cfg = c.get("cfg").and_then(Value::as_str).and_then(Cfg::parse).unwrap_or(Cfg::Default);
     match part {
         "R" => {
             let bits: Vec<u32> = c["bits"].as_array().map(|a| a.iter().filter_map(|x| x.as_u64().map(|b| b as u32)).collect()).unwrap_or_default();
             let v: Vec<f32> = bits.iter().map(|b| f32::from_bits(*b)).collect();
             let path = c["path"].as_str().unwrap_or("store_embedding");
-            let e = VectorEngine::new();
+            let e = cfg.engine();
             match r_case(&e, path, &v) {
                 Ok((true, got, sparse)) if !got.as_ref().is_some_and(|g| vec_eq(g, &v)) => rep.violation(format!("c06:readback:{}:value-differs", if sparse { "sparse" } else { "dense" }), format!("{path}({v:?}) read back {got:?}"), c.clone()),
                 Err(p) => rep.violation(format!("c06:readback:{path}:panic"), p, c.clone()),
                 _ => eprintln!("replay: holds"),
+            }
+        }
+        "X" => {
+            let vectors: Vec<Vec<f32>> = c["vectors"].as_array().map(|a| a.iter().filter_map(jvec).collect()).unwrap_or_default();
+            let x = c["xapi"].as_str().and_then(XApi::parse);
+            let q = jvec(&c["query"]);
+            let (Some(x), Some(q)) = (x, q) else {
+                rep.machinery("replay file not understood");
+                return;
+            };
+            let k = c["k"].as_u64().unwrap_or(1) as usize;
+            let e = VectorEngine::new();
+            let model = match x_model(&e, &vectors) {
+                Ok(m) => m,
+                Err(p) => {
+                    rep.machinery(format!("replay: set-up failed: {p}"));
+                    return;
+                }
+            };
+            let f = match x_build(&e, x) {
+                Ok(i) => x_judge(&x_search(&e, &i, x, &q, k), x, &model, &q, k),
+                Err(p) => fail("build-error", p),
+            };
+            match f {
+                Some(f) => rep.violation(format!("c06:caller-held-index:{}:{}", x.short(), f.kind), f.msg, c.clone()),
+                None => eprintln!("replay: holds"),
             }
         }
         "H" => {
@@ -1294,9 +1960,9 @@ fn replay_case(rep: &mut Report, c: &Value) {
                 rep.machinery("replay file not understood");
                 return;
             };
-            let e = VectorEngine::new();
-            let diag = VectorEngine::new();
-            let (model, _) = match setup(&e, w, &ops) {
+            let e = cfg.engine();
+            let diag = cfg.engine();
+            let (model, _) = match setup(&e, w, cfg, &ops) {
                 Ok(x) => x,
                 Err(p) => {
                     rep.machinery(format!("replay: mutator panicked: {p}"));
@@ -1308,6 +1974,15 @@ fn replay_case(rep: &mut Report, c: &Value) {
                     Some(f) => rep.violation(format!("c06:readback:{}:{}", w.short(), f.kind), f.msg, c.clone()),
                     None => eprintln!("replay: holds"),
                 }
+                remove_save_files();
+                return;
+            }
+            if c["api"].as_str() == Some("listing") {
+                match listings(&e, w, &model, &mut 0) {
+                    Some((func, f)) => rep.violation(format!("c06:listing:{func}:{}", f.kind), f.msg, c.clone()),
+                    None => eprintln!("replay: holds"),
+                }
+                remove_save_files();
                 return;
             }
             let api = c["api"].as_str().and_then(Api::parse);
@@ -1317,7 +1992,7 @@ fn replay_case(rep: &mut Report, c: &Value) {
                 return;
             };
             let k = c["k"].as_u64().unwrap_or(1) as usize;
-            let weak = model.cache_valid();
+            let weak = weak_for(api, &model);
             let out = run_api(&e, api, &q, k);
             let got = match &out {
                 Outcome::Ok(res) => format!("{:?}", res.iter().map(|r| (r.key.clone(), r.score)).collect::<Vec<_>>()),
@@ -1332,6 +2007,7 @@ fn replay_case(rep: &mut Report, c: &Value) {
                 }
                 None => eprintln!("replay: holds"),
             }
+            remove_save_files();
         }
     }
     rep.sample(c.clone());
